@@ -102,8 +102,8 @@ def variants(rng, g):
             if exp is False and math.isclose(float(old), new, rel_tol=1e-9, abs_tol=1e-12):
                 exp = None      # the difference is below the documented absolute tolerance
             if path[0] == "pulses" and path[-1] == "time" and \
-                    sum(1 for q in base["pulses"] if q["time"] == old) > 1:
-                exp = None      # re-resolution re-sorts same-time pulses
+                    sum(1 for q in base["pulses"] if min(old, new) <= q["time"] <= max(old, new)) > 1:
+                exp = None      # re-resolution re-sorts pulses whose times coincide or cross: the pulse lists differ in order
             yield ("perturb:" + ".".join(str(k) for k in path if isinstance(k, str)) + (":in" if exp else ":out"), exp, d)
     d = copy.deepcopy(base); d["time_units"] = "years" if base["time_units"] != "years" else "ka"
     if base["time_units"] == "generations":
